@@ -43,7 +43,7 @@ REQUIRED_ANCHORS = ['frame.FrameGO.__setitem__', 'frame.FrameGO.extend', 'frame.
 REQUIRED_TALLIES = [('outcome', 'rejected'), ('outcome', 'grown'), ('derivation', 'to_frame'), ('derivation', 'to_frame_go')]
 
 _DTYPES = ['bool', 'int64', 'float64', '<U5', 'object', 'M8[D]', 'int8']
-_GROW = ['setitem_array', 'setitem_list', 'setitem_scalar', 'setitem_generator', 'setitem_series', 'setitem_series_unaligned',
+_GROW = ['setitem_array', 'setitem_list', 'setitem_scalar', 'setitem_generator', 'setitem_series', 'setitem_series_unaligned', 'setitem_series_auto_other_length',
          'setitem_dup', 'setitem_wrong_len', 'setitem_wrong_len_iterator', 'extend_items_wrong_len_iterator', 'setitem_2d', 'setitem_frame', 'extend_frame', 'extend_frame_dup', 'extend_frame_partial_dup',
          'extend_frame_unaligned', 'extend_frame_empty', 'extend_series', 'extend_series_dup', 'extend_items', 'extend_items_dup_mid',
          'extend_items_raising_generator', 'columns_append_by_user']
@@ -357,6 +357,16 @@ def _do_grow(ctx, f, model, step, klass):
             s = sf.Series(V.to_array([cols[0][i] for i in keep], dt), index=f.index.iloc[keep])
             f[labs[0]] = s
             exp = [cs(cols[0][i]) if i in keep else None for i in range(nr)]
+            added = [(labs[0], exp)]
+        elif kind == 'setitem_series_auto_other_length':
+            # both the frame and the value carry a default integer index, of different lengths: still aligned by label
+            if nr < 1 or getattr(f.index, '_map', 1) is not None:
+                return 'skip', None
+            k = rng.choice([max(0, nr - 1), nr + 1, nr + 2, max(0, nr - 2)])
+            vals = [cols[0][i % nr] for i in range(k)]
+            s = sf.Series(V.to_array(vals, dt)) if k else sf.Series((), dtype=V.to_array(cols[0], dt).dtype)
+            f[labs[0]] = s
+            exp = [cs(vals[i]) if i < k else None for i in range(nr)]
             added = [(labs[0], exp)]
         elif kind == 'setitem_dup':
             if not held:
